@@ -382,9 +382,11 @@ export function recordToObject(prog, t) {
 
 // ---- declared keys / strict mode (Appendix C.3) -----------------------------------------------------
 // noUndeclared(T, v): defined where member(T,v)=IN. Three-valued.
-export function noUndeclared(prog, t, v, fuel = 64) {
+export function noUndeclared(prog, t, v, fuel = 64, opts = {}) {
   if (fuel <= 0) return DC;
-  const N = (tt, vv) => noUndeclared(prog, tt, vv, fuel - 1);
+  const N = (tt, vv) => noUndeclared(prog, tt, vv, fuel - 1, opts);
+  // opts.separate: model of a known defect (each member of an intersection judged on its own keys)
+  if (opts.separate && t.k === "inter") return allOf(t.m.map((x) => N(x, v)));
   switch (t.k) {
     case "prim":
     case "typed":
@@ -406,7 +408,7 @@ export function noUndeclared(prog, t, v, fuel = 64) {
     case "record":
       return N(recordToObject(prog, t), v);
     case "object":
-      return noUndeclaredObjects(prog, [t], v, fuel);
+      return noUndeclaredObjects(prog, [t], v, fuel, opts);
     case "union":
       return anyOf(t.m.map((x) => (member(prog, x, v) === IN ? N(x, v) : member(prog, x, v) === DC ? DC : OUT)));
     case "inter": {
@@ -420,7 +422,7 @@ export function noUndeclared(prog, t, v, fuel = 64) {
           const objs = conj.filter((x) => x.k === "object");
           const others = conj.filter((x) => x.k !== "object");
           const rs = others.map((x) => N(x, v));
-          if (objs.length > 0) rs.push(noUndeclaredObjects(prog, objs, v, fuel));
+          if (objs.length > 0) rs.push(noUndeclaredObjects(prog, objs, v, fuel, opts));
           return allOf(rs);
         }),
       );
@@ -453,7 +455,7 @@ function distribute(prog, members) {
   return alts;
 }
 
-function noUndeclaredObjects(prog, objs, v, fuel) {
+function noUndeclaredObjects(prog, objs, v, fuel, opts = {}) {
   if (!isPlain(v)) return DC;
   const rs = [];
   for (const k of Object.keys(v)) {
@@ -481,7 +483,7 @@ function noUndeclaredObjects(prog, objs, v, fuel) {
     const x = v[k];
     for (const pt of propTypes) {
       if (pt.opt && x == null) continue;
-      rs.push(noUndeclared(prog, pt.t, x, fuel - 1));
+      rs.push(noUndeclared(prog, pt.t, x, fuel - 1, opts));
     }
   }
   return allOf(rs);
